@@ -2080,7 +2080,7 @@ func (c *ttCaseGen) addCall(t *ttGenTool) {
 	}
 	out := ""
 	switch {
-	case t.outTy.K == "ptr" && g.coin(0.2):
+	case t.outTy.K == "ptr" && g.coin(0.3):
 		out = "nilptr"
 	case t.outTy.K == "any" && g.coin(0.2):
 		out = "nilany"
@@ -2161,7 +2161,9 @@ func ttGenCase(r *rand.Rand, nCalls int) []string {
 			n++
 			reg := pivot
 			if n > 1 {
-				if g.coin(0.7) {
+				if x := g.r.Float64(); x < 0.2 {
+					reg = pivot // the same Go types again: both type entries of a shared cache are hit
+				} else if x < 0.75 {
 					reg = related[g.r.Intn(len(related))]
 				} else {
 					reg = &ttRegs[r.Intn(len(ttRegs))]
@@ -2245,7 +2247,7 @@ func TestVerifTypedTool(t *testing.T) {
 		f64 = append(f64, "f64 "+n.String())
 	}
 	runCase(f64)
-	n := verifN(750, 20000)
+	n := verifN(1100, 20000)
 	for i := 0; i < n; i++ {
 		runCase(ttGenCase(r, 8))
 	}
